@@ -21,7 +21,7 @@ for root, _, files in os.walk(d):
         p = os.path.join(root, f)
         if f.endswith((".o", ".pem", ".log", ".so")) or (os.access(p, os.X_OK) and os.path.getsize(p) > 50000):
             os.unlink(p)
-json.dump({"property": prop, "checks": checks.split(","), "origin": "independent sub-agent, third round (property text + the list of "
+json.dump({"property": prop, "checks": checks.split(","), "origin": "independent sub-agent, fourth round (property text + the list of "
            "changes already taken + scratch worktree only)", "what": what, "needs": needs,
            "suite": "SUITE-OK 154/154 on the changed tree (sub-agent's run; see notes.md)",
            "demo": "demo/run.sh <tree>: exit 1 on the changed tree, 0 on the unchanged one (sub-agent's run; see notes.md)"},
